@@ -117,6 +117,20 @@ def rule_r3(ctx: Ctx) -> None:
                                               f"FullDecider(max_depth=D) builds full trees of depth D{off:+d} (all branches end at 1, 2, 4 for D = 2, 3, 5 "
                                               f"with the pinned -1); FullInitializer hides it by passing max_depth + 1" if off is not None else
                                               f"'{norm(eqs[0])}' is not an equality between the distance and the remaining depth"))
+    if n == 0:
+        # no equality disjunct found in comprehension filters (the chooser is spelled with loops): read the offset off the model
+        from .choosermodel import full_offset
+        for f in prog.implementations(DECIDER, "choose_production_alternatives"):
+            if not (f.cls and "Full" in f.cls.name):
+                continue
+            off = full_offset(ctx, f)
+            n += 1
+            desc = f"{f.cls.name}: the frontier (non-recursive) disjunct is 'distance == remaining depth" + \
+                ("" if off == 0 else f" {off:+d}" if off is not None else " + ?") + "'"
+            ctx.ob("C04.R3", f, f.node, desc, (off == 0) if off is not None else None,
+                   "" if off == 0 else (f"with no recursive production the full decider prefers alternatives whose distance is the remaining depth {off:+d}: "
+                                        f"FullDecider(max_depth=D) builds full trees of depth D{off:+d}; FullInitializer hides it by passing max_depth + 1"
+                                        if off is not None else "the preferred alternatives are not one distance class in the model"))
     ctx.floor("C04.R3", n, 1, "frontier disjuncts of the full decider")
 
 
